@@ -2,6 +2,12 @@ import PyYetiVerif.Props.C18
 import PyYetiVerif.Props.C18Up
 import PyYetiVerif.Props.C18Idx
 import PyYetiVerif.Props.C18Xyz
+import PyYetiVerif.Props.C18Tran
+import PyYetiVerif.Props.C18Ulvs
+import PyYetiVerif.Props.C18Prt
+import PyYetiVerif.Props.C18Cyc
+import PyYetiVerif.Props.C18Tran0
+import PyYetiVerif.Props.C18TranM
 #print axioms PyYetiVerif.C18.base_sets_disjoint
 #print axioms PyYetiVerif.C18.superset_is_union
 #print axioms PyYetiVerif.C18.superset_is_union_bitwise
@@ -67,3 +73,36 @@ import PyYetiVerif.Props.C18Xyz
 #print axioms PyYetiVerif.C18.nodeIds_make
 #print axioms PyYetiVerif.C18.xyz_triple_exact
 #print axioms PyYetiVerif.C18.find_xyz_triples_exact
+#print axioms PyYetiVerif.C18.formtran_partition_identity
+#print axioms PyYetiVerif.C18.formtran_aset_identity
+#print axioms PyYetiVerif.C18.formtran_columns_are_target_set
+#print axioms PyYetiVerif.C18.ulvsPath_spec
+#print axioms PyYetiVerif.C18.ulvsLoop_chain
+#print axioms PyYetiVerif.C18.formulvs_chain_is_product
+#print axioms PyYetiVerif.C18.formulvs_noshortcut
+#print axioms PyYetiVerif.C18.formulvs_cases
+#print axioms PyYetiVerif.C18.formdrm_is_rows_of_formtran
+#print axioms PyYetiVerif.C18.formdrm_same_se
+#print axioms PyYetiVerif.C18.addulvs_consistent
+#print axioms PyYetiVerif.C18.memberCol_spec
+#print axioms PyYetiVerif.C18.usetprt_table_is_partition_listing
+#print axioms PyYetiVerif.C18.mask_expression_is_union
+#print axioms PyYetiVerif.C18.mask_expression_members
+#print axioms PyYetiVerif.C18.mask_expression_append
+#print axioms PyYetiVerif.C18.mask_expression_absorbs
+#print axioms PyYetiVerif.C18.mkdofpv_expression
+#print axioms PyYetiVerif.C18.find_subseq_mem_iff
+#print axioms PyYetiVerif.C18.find_subseq_errors
+#print axioms PyYetiVerif.C18.find_rows_other_length
+#print axioms PyYetiVerif.C18.mat_intersect_duplicates
+#print axioms PyYetiVerif.C18.index_helpers_refuse_together
+#print axioms PyYetiVerif.C18.upqsetpv_never_returns_of_progress
+#print axioms PyYetiVerif.C18.upqsetpv_cyclic_diverges
+#print axioms PyYetiVerif.C18.formtran0_gset
+#print axioms PyYetiVerif.C18.formtran0_gset_repeated
+#print axioms PyYetiVerif.C18.formtran0_phg
+#print axioms PyYetiVerif.C18.formtran0_pha
+#print axioms PyYetiVerif.C18.formtran_mset_composition
+#print axioms PyYetiVerif.C18.dotChain_append
+#print axioms PyYetiVerif.C18.ulvsPath_mono
+#print axioms PyYetiVerif.C18.ulvsPath_split
